@@ -11,6 +11,7 @@ import (
 	"net"
 	"net/rpc"
 	"sync"
+	"sync/atomic"
 
 	"github.com/hashicorp/yamux"
 )
@@ -106,15 +107,22 @@ func (s *RPCServer) ServeConn(conn io.ReadWriteCloser) {
 
 	// Use the control connection to build the dispenser and serve the
 	// connection.
-	server := rpc.NewServer()
-	server.RegisterName("Control", &controlServer{
+	ctrl := &controlServer{
 		server: s,
-	})
+	}
+	server := rpc.NewServer()
+	server.RegisterName("Control", ctrl)
 	server.RegisterName("Dispenser", &dispenseServer{
 		broker:  broker,
 		plugins: s.Plugins,
 	})
 	server.ServeConn(control)
+
+	// The client has hung up the control connection. If it asked us to quit
+	// before that, end the server now (see controlServer.Quit).
+	if atomic.LoadUint32(&ctrl.quit) == 1 {
+		s.done()
+	}
 }
 
 // done is called internally by the control server to trigger the
@@ -133,6 +141,9 @@ func (s *RPCServer) done() {
 // dispenseServer dispenses variousinterface implementations for Terraform.
 type controlServer struct {
 	server *RPCServer
+
+	// quit is set to 1 (atomically) once the client has requested shutdown.
+	quit uint32
 }
 
 // Ping can be called to verify the connection (and likely the binary)
@@ -147,8 +158,13 @@ func (c *controlServer) Ping(
 func (c *controlServer) Quit(
 	null bool, response *struct{},
 ) error {
-	// End the server
-	c.server.done()
+	// Ending the server ends the plugin process, and that must not happen
+	// before the reply to this call has reached the client: a client that
+	// loses the reply treats the shutdown request as failed and kills the
+	// plugin in the middle of its cleanup. So only note the request here;
+	// ServeConn ends the server when the client, having seen the reply,
+	// hangs up the control connection (or the connection is lost).
+	atomic.StoreUint32(&c.quit, 1)
 
 	// Always return true
 	*response = struct{}{}
